@@ -284,8 +284,9 @@ Proof. exact (conj go_Address64_Offset_tie go_Address64_SetOffset_tie). Qed.
 Print Assumptions C14_kernel_Address64.
 
 Theorem C14_kernel_Uint24 :
-  (forall a b c, go_Uint24_Uint32 [a; b; c] = Ok (Fit.u24_get [a; b; c])) /\
-  (forall a b c v, go_Uint24_SetUint32 [a; b; c] v = Fit.u24_set v).
+  (forall a b c, 0 <= a < 256 -> 0 <= b < 256 -> 0 <= c < 256 ->
+     go_out (go_Uint24_Uint32 [a; b; c]) = Ok (Fit.u24_get [a; b; c])) /\
+  (forall a b c v, 0 <= v < 2 ^ 32 -> go_out (go_Uint24_SetUint32 [a; b; c] v) = Fit.u24_set v).
 Proof. exact (conj go_Uint24_Uint32_tie go_Uint24_SetUint32_tie). Qed.
 Print Assumptions C14_kernel_Uint24.
 
@@ -293,15 +294,15 @@ Theorem C14_kernel_TypeAndIsChecksumValid :
   (forall f, go_TypeAndIsChecksumValid_Type f = Fit.tc_type f) /\
   (forall f, go_TypeAndIsChecksumValid_IsChecksumValid f = Fit.tc_cv f) /\
   (forall f t, 0 <= f < 256 -> 0 <= t < 256 ->
-     go_TypeAndIsChecksumValid_SetType f t = match Fit.tc_set_type f t with Panic _ => Panic 1 | o => o end) /\
-  (forall f v, 0 <= f < 256 -> go_TypeAndIsChecksumValid_SetIsChecksumValid f v = Fit.tc_set_cv f v).
+     outcome_agree (go_out (go_TypeAndIsChecksumValid_SetType f t)) (Fit.tc_set_type f t)) /\
+  (forall f v, 0 <= f < 256 -> go_out (go_TypeAndIsChecksumValid_SetIsChecksumValid f v) = Ok (Fit.tc_set_cv f v)).
 Proof. exact (conj go_TypeAndIsChecksumValid_Type_tie (conj go_TypeAndIsChecksumValid_IsChecksumValid_tie
          (conj go_TypeAndIsChecksumValid_SetType_tie go_TypeAndIsChecksumValid_SetIsChecksumValid_tie))). Qed.
 Print Assumptions C14_kernel_TypeAndIsChecksumValid.
 
 Theorem C14_kernel_mostCommonGetDataSegmentSize :
   forall a b c, 0 <= a < 256 -> 0 <= b < 256 -> 0 <= c < 256 ->
-  go_EntryHeaders_mostCommonGetDataSegmentSize [a; b; c] = Ok (Fit.u24_get [a; b; c] * 16).
+  go_out (go_EntryHeaders_mostCommonGetDataSegmentSize [a; b; c]) = Ok (Fit.u24_get [a; b; c] * 16).
 Proof. exact go_EntryHeaders_mostCommonGetDataSegmentSize_tie. Qed.
 Print Assumptions C14_kernel_mostCommonGetDataSegmentSize.
 
